@@ -296,8 +296,8 @@ func genRL(c *vh.Ctx) {
 	}
 	// CRL numbers: boundaries of the 20-octet rule
 	for _, num := range []string{"0", "1", "127", "128", "255", "256", "18446744073709551616",
-		"730750818665451459101842416358141509827966271487",  // 2^159-1: 20 octets, top bit clear
-		"730750818665451459101842416358141509827966271488",  // 2^159: 20 octets, top bit set -> refused
+		"730750818665451459101842416358141509827966271487",    // 2^159-1: 20 octets, top bit clear
+		"730750818665451459101842416358141509827966271488",    // 2^159: 20 octets, top bit set -> refused
 		"1461501637330902918203684832716283019655932542976"} { // 2^160: 21 octets -> refused
 		in := base()
 		in.Number = num
